@@ -926,3 +926,77 @@ func genTargetNamespace(t *rapid.T, sq *vk.Square) (libshare.Namespace, string) 
 		return vk.HighNS(), "high"
 	}
 }
+
+// ---------------------------------------------------------------------------------------------
+// native fuzz targets (thorough tier): same oracles, coverage-guided byte search
+
+func FuzzVerifC18_IDDecoders(f *testing.F) {
+	decs := idDecoders()
+	for i, d := range decs {
+		valid := make([]byte, d.size)
+		valid[7] = 1 // height 1
+		if d.name == "nd" || d.name == "rownd" {
+			copy(valid[d.size-libshare.NamespaceSize:], vk.BlobNS(2).Bytes())
+		}
+		if d.name == "range" {
+			valid[d.size-1] = 1 // to = 1
+		}
+		if d.name == "rangeV0" {
+			valid[d.size-1] = 1
+		}
+		f.Add(uint8(i), valid)
+		f.Add(uint8(i), bytes.Repeat([]byte{0xFF}, d.size))
+		f.Add(uint8(i), bytes.Repeat([]byte{0x00}, d.size))
+		f.Add(uint8(i), valid[:d.size-1])
+		f.Add(uint8(i), append(append([]byte(nil), valid...), 0))
+	}
+	f.Fuzz(func(t *testing.T, sel uint8, data []byte) {
+		d := decs[int(sel)%len(decs)]
+		if _, err := checkIDDecoder(d, data); err != nil {
+			t.Fatalf("C18 %v", err)
+		}
+	})
+}
+
+func fuzzCodecs() []struct {
+	name string
+	c    codec
+} {
+	return []struct {
+		name string
+		c    codec
+	}{
+		{"sample/stream", sampleStream}, {"row/stream", rowStream}, {"rownd/stream", rndStream}, {"nd/stream", ndStream},
+		{"range/stream", rangeStream}, {"sample/json", sampleJSON}, {"row/json", rowJSON}, {"rownd/json", rndJSON}, {"range/json", rangeJSON},
+	}
+}
+
+func FuzzVerifC18_ContainerDecoders(f *testing.F) {
+	cs := fuzzCodecs()
+	// corpus: honest encodings from one small fixed square
+	sq := vk.BuildSquare(2, 1, []vk.Run{{NS: vk.BlobNS(0), Start: 0, Len: 2}, {NS: vk.BlobNS(1), Start: 2, Len: 1}}, 42)
+	smpl, _ := SampleFromShares(sq.ExtendedRowShares(1), rsmt2d.Row, SampleCoords{Row: 1, Col: 2})
+	row, _ := RowFromEDS(sq.EDS, 0, Left)
+	rnd, _ := RowNamespaceDataFromShares(sq.ExtendedRowShares(0), vk.BlobNS(0), 0)
+	abs, _ := RowNamespaceDataFromShares(sq.ExtendedRowShares(1), vk.OddNS(1), 1)
+	rng, _ := RangeNamespaceDataFromShares([][]libshare.Share{sq.ExtendedRowShares(0)}, SampleCoords{Row: 0, Col: 0}, SampleCoords{Row: 0, Col: 1})
+	vals := []any{&smpl, &row, &rnd, &NamespaceData{rnd, abs}, &rng, &smpl, &row, &rnd, &rng}
+	for i, c := range cs {
+		if enc, err := c.c.enc(vals[i]); err == nil {
+			f.Add(uint8(i), enc)
+		}
+		f.Add(uint8(i), []byte{})
+		f.Add(uint8(i), []byte{0xFF, 0xFF, 0xFF, 0xFF, 0x0F})
+	}
+	if enc, err := rndStream.enc(&abs); err == nil {
+		f.Add(uint8(2), enc)
+	}
+	f.Add(uint8(6), []byte(`{"shares":[],"side":"NONE"}`))
+	f.Add(uint8(5), []byte(`{"share":null,"proof":null,"proof_type":9}`))
+	f.Fuzz(func(t *testing.T, sel uint8, data []byte) {
+		c := cs[int(sel)%len(cs)]
+		if _, err := decodeStable(c.name, data, c.c); err != nil {
+			t.Fatalf("C18 %v", err)
+		}
+	})
+}
